@@ -235,6 +235,12 @@ level = "error"
             self.write_files();
             let mut cmd = Command::new(&self.bin);
             cmd.arg("--config").arg(self.config_path()).stdout(Stdio::null()).stderr(Stdio::null()).env_remove("KYRODB_CONFIG").env_remove("LD_PRELOAD");
+            // debugging aid: VERIF_SRV_STDERR=<file> appends the server's stderr there (with backtraces)
+            if let Ok(p) = std::env::var("VERIF_SRV_STDERR") {
+                if let Ok(f) = std::fs::OpenOptions::new().create(true).append(true).open(p) {
+                    cmd.stderr(f).env("RUST_BACKTRACE", "1");
+                }
+            }
             for (k, _) in std::env::vars() {
                 if k.starts_with("KYRODB__") {
                     cmd.env_remove(k);
@@ -311,9 +317,9 @@ level = "error"
 
     pub fn kill9(&mut self) {
         if let Some(mut c) = self.child.take() {
-            unsafe {
-                libc::kill(c.id() as i32, libc::SIGKILL);
-            }
+            // Child::kill never signals a pid that has already been reaped (alive() reaps through
+            // try_wait); a raw kill(pid) could hit a RECYCLED pid, i.e. another shard's server
+            let _ = c.kill();
             let _ = c.wait();
         }
     }
@@ -321,6 +327,10 @@ level = "error"
     /// graceful stop; returns the exit code
     pub fn term(&mut self) -> Option<i32> {
         if let Some(mut c) = self.child.take() {
+            // only signal a child that has not been reaped yet (a reaped pid may have been recycled)
+            if let Ok(Some(st)) = c.try_wait() {
+                return st.code();
+            }
             unsafe {
                 libc::kill(c.id() as i32, libc::SIGTERM);
             }
